@@ -10,7 +10,7 @@ MANIFEST = {
     "note": "Small universe (3 ref names, 2 hashes, 5 objects, 2 indexes, 3 shallow sets, 2 configs); reflogs and modules are not in the model; packed-object initial layouts are covered by C11/C18 rather than here.",
 }
 HIDDEN = "TypeOK FailedChangesNothing ObjectsOnlyGrow FrameRefs FrameObjs ShallowReplaces EmitHist"
-CFG = """CONSTANTS Names <- MCNames Hashes <- MCHashes SymOK <- MCSymOK NoRemove <- MCNoRemove Objects <- MCObjects
+CFG = """CONSTANTS Names <- MCNames Hashes <- MCHashes SymOK <- MCSymOK NoRemove <- MCNoRemove Objects <- MCObjects PackSets <- MCPackSets
  IdxVals <- MCIdxVals ShallowSets <- MCShallowSets CfgVals <- MCCfgVals Inits <- MCInits MaxOps = %d EmitAll = TRUE
 INIT Init
 NEXT Next
